@@ -1,6 +1,6 @@
 (* Extraction of the Digital Metadata models (C13, C12, C20). ExtrOcamlBasic only. *)
 From Coq Require Import ZArith List.
-From DRF Require Import Base.Civil Model.Ld80 Model.MdPlace.
+From DRF Require Import Base.Civil Model.Ld80 Model.MdPlace Model.MdStore.
 Require Extraction.
 Require Import ExtrOcamlBasic.
 Import ListNotations.
@@ -9,6 +9,75 @@ Local Open Scope Z_scope.
 Definition arith_of (a : Z) : arith := if a =? 0 then Exact else LongDouble.
 
 Definition flat_pairs (l : list (Z * Z)) : list Z := flat_map (fun p => [fst p; snd p]) l.
+
+(* ---- C12/C20: a write history followed by queries -------------------------------------------
+   args: arith gsort ffedge  n d fc sc  ncalls (len k v ...)*  nq (kind a b)*
+   out : ncalls status*   then per query: status len item*
+   kinds: 0 get_bounds | 1 read(a,b) | 2 read(a,b,ffill) | 3 read_latest | 4 read() | 5 read(a)
+          | 6 read(a, method=ffill) | 7 dump of the directory (sub ts index tag)* *)
+Definition variant_of (a g e : Z) : variant :=
+  mkVar (arith_of a) (if g =? 0 then IntSort else StrSort) (if e =? 0 then Clipped else WholeFile).
+
+Fixpoint take_pairs (n : nat) (l : list Z) : list sample * list Z :=
+  match n, l with
+  | S n', k :: v :: r => let '(ps, rest) := take_pairs n' r in ((k, v) :: ps, rest)
+  | _, _ => ([], l)
+  end.
+Fixpoint parse_calls (n : nat) (l : list Z) : list (list sample) * list Z :=
+  match n, l with
+  | S n', len :: r =>
+      let '(ps, rest) := take_pairs (Z.to_nat len) r in
+      let '(cs, rest') := parse_calls n' rest in (ps :: cs, rest')
+  | _, _ => ([], l)
+  end.
+Fixpoint parse_queries (n : nat) (l : list Z) : list (Z * Z * Z) :=
+  match n, l with
+  | S n', k :: a :: b :: r => (k, a, b) :: parse_queries n' r
+  | _, _ => []
+  end.
+
+Fixpoint run_calls (a : arith) (c : cfg) (st : store) (calls : list (list sample)) : store * list Z :=
+  match calls with
+  | [] => (st, [])
+  | l :: r => let '(st', ok) := write_call a c st l in
+              let '(st'', oks) := run_calls a c st' r in (st'', (if ok then 1 else 0) :: oks)
+  end.
+
+Definition out_rres (r : rres) : list Z :=
+  match r with
+  | ROk l => 0 :: Z.of_nat (length l) :: flat_pairs l
+  | RValueError => [1; 0]
+  | RIOError => [2; 0]
+  end.
+
+Definition run_query (va : variant) (c : cfg) (st : store) (q : Z * Z * Z) : list Z :=
+  let '(kind, a, b) := q in
+  match kind with
+  | 0 => match get_bounds va st with Some (lo, hi) => [0; 1; lo; hi] | None => [2; 0] end
+  | 1 => out_rres (read va c st (Some a) (Some b) false)
+  | 2 => out_rres (read va c st (Some a) (Some b) true)
+  | 3 => out_rres (read_latest va c st)
+  | 4 => out_rres (read va c st None None false)
+  | 5 => out_rres (read va c st (Some a) None false)
+  | 6 => out_rres (read va c st (Some a) None true)
+  | 7 => 0 :: Z.of_nat (length st) :: flat_map (fun e => let '(s, t, k, v) := e in [s; t; k; v]) st
+  | _ => [-999]
+  end.
+
+Definition run_history (args : list Z) : list Z :=
+  match args with
+  | a :: g :: e :: n :: d :: fcs :: scs :: ncalls :: r =>
+      let va := variant_of a g e in
+      let c := mkCfg n d fcs scs in
+      let '(calls, rest) := parse_calls (Z.to_nat ncalls) r in
+      let '(st, oks) := run_calls (v_arith va) c [] calls in
+      match rest with
+      | nq :: qs =>
+          Z.of_nat (length oks) :: oks ++ flat_map (run_query va c st) (parse_queries (Z.to_nat nq) qs)
+      | [] => Z.of_nat (length oks) :: oks
+      end
+  | _ => [-999]
+  end.
 
 Definition run (f : Z) (args : list Z) : list Z :=
   match f, args with
@@ -20,6 +89,7 @@ Definition run (f : Z) (args : list Z) : list Z :=
      vm_compute inside Coq on a sample each run: the shared driver cannot link a model that
      extracts Coq's [string]) *)
   | 3, [sub] => let '(y, mo, dd, hh, mi, ss) := time_parts sub in [y; mo; dd; hh; mi; ss]
+  | 10, _ => run_history args
   | _, _ => [-999]
   end.
 
